@@ -54,8 +54,8 @@ def run(rep, tier, seed, rng):
             if r < 0.75: return {"apps": rng.sample(al, rng.randint(1, len(al)))}
             return {"builders": sorted(rng.sample(bl, rng.randint(1, len(bl)))), "apps": rng.sample(al, rng.randint(1, len(al)))}
         def flags():
-            sc = {"ninja_rc": rng.choice([0, 0, 1, 2, "kill"])}
-            if rng.random() < 0.3: sc["jobs"] = rng.choice([1, 4, 16])
+            sc = {"ninja_rc": rng.choice([0, 0, 0, 1, 2, "kill", "missing"])}
+            if rng.random() < 0.3: sc["jobs"] = rng.choice([0, 1, 4, 16])          # -j 0: no limit; it is passed on like any other value
             if rng.random() < 0.3: sc["keep_going"] = rng.choice([0, 1, 3])
             if rng.random() < 0.3: sc["verbose"] = rng.choice([1, 2])
             return sc
